@@ -497,17 +497,19 @@ class Conv3:
         self.tab = tab
         self.names = fw.Interner()
         self.funcs = {}
+        self.freqs = {}           # function name -> runtime requirements of a declared function's type (progs.with_reqs)
         self.subs = []            # prog3 literals of the function constants, in document order
         self.top = top
 
     def row(self, ts):
         return [self.tab.ty(ser_ty(t)) for t in ts]
 
-    def poly_parts(self, params, ins, outs):
-        """(parameter-list id, interned signature id) of PolyFuncType(params, FunctionType(ins, outs))"""
+    def poly_parts(self, params, ins, outs, reqs=None):
+        """(parameter-list id, interned signature id) of PolyFuncType(params, FunctionType(ins, outs, reqs))"""
         from hugr import tys
         sig = tys.PolyFuncType([progs.mk_param(x) for x in (params or [])],
-                               tys.FunctionType([progs.mk_ty(t) for t in ins], [progs.mk_ty(t) for t in outs]))
+                               tys.FunctionType([progs.mk_ty(t) for t in ins], [progs.mk_ty(t) for t in outs],
+                                                runtime_reqs=list(reqs or [])))
         d = json.loads(sig._to_serial().model_dump_json())
         return self.tab.params_id(d["params"]), self.tab.poly(d)
 
@@ -629,7 +631,9 @@ class Conv3:
                 if st["func"] not in self.funcs:
                     raise OutOfModel("load_function of an unknown function")
                 ins, ous = self.funcs[st["func"]]
-            fnty = tab.ty(ser_ty(["fn", list(ins), list(ous)]))
+            # a function DECLARED with runtime requirements (progs.with_reqs): the loaded value has the declared type
+            rq = self.freqs.get(st["func"]) if st.get("inst") is None else None
+            fnty = tab.ty(ser_ty(["fn", list(ins), list(ous)] + ([list(rq)] if rq else [])))
             (w,) = st["outs"]
             return gapp("ULoadFn", gN(st["id"]), gN(self.names(st["func"])), gN(w), self.inst(st), gN(fnty))
         if k == "localfn":
@@ -662,11 +666,13 @@ class Conv3:
             consts = [self.value(v) for v in p.get("consts", [])]
             for f in p["funcs"]:
                 self.funcs[f["name"]] = (f["ins"], f["outs"])
+                if f.get("decl") and f.get("reqs"):
+                    self.freqs[f["name"]] = f["reqs"]
             fs = []
             for f in p["funcs"]:
                 fid = gN(self.names(f["name"]))
                 if f.get("decl"):
-                    _, sg = self.poly_parts(f.get("params"), f["ins"], f["outs"])
+                    _, sg = self.poly_parts(f.get("params"), f["ins"], f["outs"], f.get("reqs"))
                     fs.append(("FDecl", fid, gN(sg)))
                 else:
                     pid, _ = self.poly_parts(f.get("params"), f["ins"], f["outs"])
@@ -703,6 +709,12 @@ def conv_prog3(p, tab: Tab):
     OutOfModel"""
     c = Conv3(tab)
     pl = c.prog(p)
+    sg = tab.sigs()
+    if len({(pi, tuple(i), tuple(o)) for pi, i, o in sg}) < len(sg):
+        # the signature table of model/Builder3.v (sinfo: parameters, inputs, outputs) has no requirement sets: FuncDefn's
+        # find_sig cannot tell two signatures that differ only in runtime_reqs apart.  Such a program is outside the
+        # third model (its document is still monitored)
+        raise OutOfModel("signatures that differ only in runtime requirements")
     return pl, glist(c.subs)
 
 
@@ -1217,6 +1229,20 @@ class C01(fw.Prop):
                      else ["nested", "cond", "loop", "cfg", "call", "order", "md", "insert", "fnval", "poly", "localfn"])
             cases.append({"seed": rng.randrange(1 << 30), "root": os_roots[i % 10], "oneshot": rng.randrange(1 << 30),
                           "allow": allow + ["sumconst"], "size": rng.choice([3, 4, 6]), "depth": rng.choice([2, 3])})
+        # function types with runtime requirements (seeded change C01-i; drawn last again): the program is rewritten by
+        # progs.with_reqs (case key "reqs": every function type spec gets a requirement set that is a function of the
+        # spec, declared functions are declared with it), generated with the opt-in "hof" flag (function types,
+        # declarations, load_function and CallIndirect frequent).  Types that differ only in `runtime_reqs` are
+        # different types (class Tab): FuncDecl -> Call / LoadFunction -> CallIndirect, function-typed inputs, rows of
+        # sums / tuples, Noop / MakeTuple completed from wires, non-local wires of function type
+        rq_roots = ["module", "dfg", "module", "loop", "module", "cfg", "module", "cond", "module", "func"]
+        for i in range(32 if tier == "quick" else 450):
+            allow = (["nested", "cond", "loop", "order", "md", "insert"] if rq_roots[i % 10] in ("dfg", "loop", "cond") and i % 20 < 10
+                     else ["nested", "cond", "loop", "cfg", "call", "order", "md", "insert", "poly", "localfn"])
+            if i % 4 == 3:
+                allow = allow + ["fnval"]      # function constants: their types keep the empty requirement set
+            cases.append({"seed": rng.randrange(1 << 30), "root": rq_roots[i % 10], "reqs": rng.randrange(1 << 30),
+                          "allow": allow + ["hof"], "size": rng.choice([4, 6, 8]), "depth": rng.choice([2, 3])})
         # the programs of the extended stream are the most expensive to evaluate in Coq (large inserted / looping documents):
         # they are EVALUATED first (same draws, same seeds) so that their shards do not form the tail of the parallel run
         return ext + cases
@@ -1243,6 +1269,9 @@ class C01(fw.Prop):
                     return {**q, "_near_miss": how}
         if case.get("oneshot") is not None:
             p = {**p, "oneshot": case["oneshot"]}
+        if case.get("reqs") is not None:
+            # function types with non-empty runtime requirements (progs.with_reqs: a type-equality-preserving rewrite)
+            p = progs.with_reqs(p, case["reqs"])
         return p
 
     def observe(self, case, ctx):
@@ -1437,6 +1466,23 @@ class C01(fw.Prop):
                 d["out_of_model3"][o["out_of_model3"]] = d["out_of_model3"].get(o["out_of_model3"], 0) + 1
             for k, v in progs.kinds_of(p).items():
                 d["stmt_kinds"][k] = d["stmt_kinds"].get(k, 0) + v
+            if c.get("reqs") is not None or any(n["op"] == "FuncDecl" and n["signature"]["body"].get("runtime_reqs")
+                                                for n in o["doc"]["nodes"]):
+                rq = d.setdefault("runtime_reqs", {"programs": 0, "programs_with_requirement_types": 0,
+                                                   "CallIndirect_of_type_with_requirements": 0,
+                                                   "LoadFunction_of_type_with_requirements": 0,
+                                                   "FuncDecl_with_requirements": 0, "Call_with_requirements": 0})
+                rq["programs"] += 1
+                rq["programs_with_requirement_types"] += bool(progs.fn_reqs_count(p))
+                for n in o["doc"]["nodes"]:
+                    if n["op"] == "CallIndirect" and n["signature"].get("runtime_reqs"):
+                        rq["CallIndirect_of_type_with_requirements"] += 1
+                    elif n["op"] == "LoadFunction" and n["instantiation"].get("runtime_reqs"):
+                        rq["LoadFunction_of_type_with_requirements"] += 1
+                    elif n["op"] == "FuncDecl" and n["signature"]["body"].get("runtime_reqs"):
+                        rq["FuncDecl_with_requirements"] += 1
+                    elif n["op"] == "Call" and n["instantiation"].get("runtime_reqs"):
+                        rq["Call_with_requirements"] += 1
             if p.get("oneshot") is not None:
                 os_ = d.setdefault("oneshot", {"programs": 0, "sum_constants": 0})
                 os_["programs"] += 1
@@ -1692,6 +1738,30 @@ NAMED["oneshot_left_right_consts"] = {
              "outs": [3], "out_tys": [["sum", [["B"], ["B", "B"]]]], "defs": []}},
         {"k": "load", "val": ["left", [["tuple", [["true"]]], ["unit"]], ["F"]], "const_parent": "here", "id": 3, "outs": [6]}],
         "outs": [4, 5, 6], "out_tys": ["B", "B", ["sum", [[["tup", ["B"]], "U"], ["F"]]]], "defs": []}}
+# seeded change C01-i (missed before the runtime-requirements stream): CallIndirect._set_in_types rebuilding the
+# signature from the wired arguments and dropping the function type's runtime_reqs: the function port of the CallIndirect
+# then declares another type than the LoadFunction / Input feeding it (identical type at both ends of every edge)
+NAMED["callind_decl_runtime_reqs"] = {
+    "root": "module", "consts": [], "funcs": [
+        {"name": "decl0", "ins": ["B"], "outs": ["B"], "decl": True, "reqs": ["prelude"]},
+        {"name": "main", "ins": ["B", "B"], "outs": ["B"],
+         "body": {"ins": [1, 4], "stmts": [
+             {"k": "loadfn", "func": "decl0", "inst": None, "targs": None, "id": 1, "outs": [2]},
+             {"k": "op", "op": ["callind"], "args": [2, 1], "id": 2, "outs": [3], "via": "add"}],
+             "outs": [3], "out_tys": ["B"], "defs": []}}]}
+# the same through a function-typed input of a Dfg (inside the extended builder model: `corr` ties the model's
+# CallIndirect, whose function port has the type of the wire, to the document), requirement set of two names given
+# in non-sorted order, the value also copied through a partial Noop and into a nested region (non-local edge)
+NAMED["callind_input_runtime_reqs"] = {
+    "root": "dfg", "ins": [["fn", ["B"], ["B"], ["prelude", "arithmetic.int"]], "B"],
+    "body": {"ins": [1, 2], "stmts": [
+        {"k": "op", "op": ["noop", None], "args": [1], "id": 1, "outs": [3], "via": "add_op"},
+        {"k": "op", "op": ["callind"], "args": [3, 2], "id": 2, "outs": [4], "via": "add_op"},
+        {"k": "nested", "args": [4], "in_tys": ["B"], "insert": False, "id": 3, "outs": [7],
+         "body": {"ins": [5], "stmts": [
+             {"k": "op", "op": ["callind"], "args": [1, 5], "id": 4, "outs": [6], "via": "add"}],
+             "outs": [6], "out_tys": ["B"], "defs": []}}],
+        "outs": [7], "out_tys": ["B"], "defs": []}}
 NEG_NAMED = ["localfn", "divmod_partial_ext"]
 
 PROP = C01()
